@@ -1,3 +1,4 @@
+pub mod apreplay;
 pub mod apstress;
 pub mod c03;
 pub mod c05;
@@ -53,6 +54,7 @@ pub fn dispatch(args: &[String]) -> i32 {
         "c08" => c08::main(&a),
         "teardown" => teardown::main(&a),
         "apstress" => apstress::main(&a),
+        "replay-ap" => apreplay::replay(&a),
         "c10" => c10::main(&a),
         "c13" => c13::main(&a),
         "rpc" => rpc::main(&a),
